@@ -63,11 +63,13 @@ theorem dbi_loop1_step (index i : Nat) (x : Tr.JEntry × Bytes) (b : Tr.ArrayBui
   unfold Tr.delete_jsonb_by_index.loop1 dbiStep
   dsimp only
   by_cases h : i = index
-  · have h' : ¬ ((i : Int) ≠ (index : Int)) := by omega
-    simp only [h', h, ne_eq, not_true_eq_false, decide_false, Bool.false_eq_true, if_false, Ctl.pure_eq', Ctl.val_bind',
+  · have e1 : ((i : Int) = (index : Int)) = True := eq_true (by omega)
+    have e2 : ((index : Int) = (i : Int)) = True := eq_true (by omega)
+    simp only [ne_eq, e1, e2, h, not_true_eq_false, decide_false, Bool.false_eq_true, if_false, Ctl.pure_eq', Ctl.val_bind',
       Rs.loopStep_val']
-  · have h' : (i : Int) ≠ (index : Int) := by omega
-    simp only [h', h, ne_eq, not_false_eq_true, decide_true, if_true, array_push_raw_any, Ctl.ofRes_ok', Ctl.pure_eq',
+  · have e1 : ((i : Int) = (index : Int)) = False := eq_false (by omega)
+    have e2 : ((index : Int) = (i : Int)) = False := eq_false (by omega)
+    simp only [ne_eq, e1, e2, h, not_false_eq_true, decide_true, if_true, array_push_raw_any, Ctl.ofRes_ok', Ctl.pure_eq',
       Ctl.val_bind', Rs.loopStep_val']
 
 theorem dbi_fold_after (index : Nat) : ∀ (items : List (JE × Bytes)) (i : Nat) (acc : List BEntry), index < i →
@@ -113,15 +115,22 @@ theorem delete_jsonb_by_index_agrees (value : Bytes) (index : Int) (buf : Bytes)
     have hL := hdrLen_lt h
     simp only [Ctl.ofRes_ok', Ctl.val_bind', hdrType_eq]
     by_cases ht : hdrType h = C.ARRAY_CONTAINER_TAG
-    · simp only [ht, decide_true, if_true, hdrLen_cast_i32, hdrLen_cast, addI32_agrees]
+    · simp only [ht, decide_true, if_true, hdrLen_cast_i32, hdrLen_cast]
       -- the adjusted index: both sides continue with the same `idx`, an `i32` value
       by_cases hneg : index < 0
       case' pos =>
         have hadd : Fn.addI32 ((hdrLen h : Nat) : Int) index = .ok (((hdrLen h : Nat) : Int) + index) := by
           unfold Fn.addI32; dsimp only; rw [if_pos (by omega)]
         have hbnd : -2147483648 ≤ ((hdrLen h : Nat) : Int) + index ∧ ((hdrLen h : Nat) : Int) + index ≤ 2147483647 := by omega
+        have hin : IntTy.i32.InRange (((hdrLen h : Nat) : Int) + index) := by
+          rw [Rs.inRange_iff]; simp [IntTy.minVal, IntTy.maxVal, IntTy.signed, IntTy.bits]; omega
+        have hadd1 : Rs.add .i32 ((hdrLen h : Nat) : Int) index = .ok (((hdrLen h : Nat) : Int) + index) := Rs.add_ok _ _ _ hin
+        have hadd2 : Rs.add .i32 index ((hdrLen h : Nat) : Int) = .ok (((hdrLen h : Nat) : Int) + index) := by
+          have := Rs.add_ok .i32 index ((hdrLen h : Nat) : Int) (by rw [Int.add_comm]; exact hin)
+          rw [Int.add_comm index] at this; exact this
         rw [if_pos (show decide (index < 0) = true by simpa using hneg), if_pos hneg, hadd]
-        simp only [Ctl.ofRes_ok', Ctl.val_bind', Ctl.pure_eq']
+        simp only [hadd1, hadd2, Ctl.ofRes_ok', Ctl.val_bind', Ctl.pure_eq']
+        clear hadd1 hadd2 hin
         generalize ((hdrLen h : Nat) : Int) + index = idx at hbnd ⊢
         clear hadd hneg hidx
         revert idx
